@@ -5,17 +5,28 @@ dty value, predicted-peak localisation of a point-like grain reconstructed with
 the module's own shift and pad, linearity of the filtered back-projection,
 worker-count and ROI-mask differentials.
 """
+import contextlib, io
 import numpy as np
 from ..common import rng
 
-TECHNIQUE = ("runtime law monitor: conversion inverse laws and the ly=0 law on ImageD11.sinograms.geometry; placement oracle "
+TECHNIQUE = ("runtime law monitor: conversion inverse laws and the ly=0 law on ImageD11.sinograms.geometry (incl. the sine fit as the "
+             "inverse of dty_values_grain_in_beam and the covering/symmetry laws of step_grid_from_ybincens); placement oracle "
              "(point-grain sinogram built with the module's own dty convention -> run_iradon with sino_shift_and_pad -> peak within "
-             "1.5 px of sample_to_recon); linearity, ThreadPool worker-count differential (1..16, repeated) and ROI-mask differential")
+             "1.5 px of sample_to_recon); linearity, ThreadPool worker-count differential (1..16 and None = all cores, repeated) and ROI-mask "
+             "differential; route differential run_iradon vs iradon vs GrainSinogram.recon")
 LEVEL_TEXT = ("Exploration: random positions over the scanned disc in all quadrants, ystep 0.1..50, y0 within +-10 steps "
               "(fractional), sinogram heights odd/even 21..201, 0-180 and 0-360 scans, pads from the module, random ROI masks, workers "
-              "1..16 with repetitions; 5,000+ conversion samples per run.")
+              "1..16 with repetitions; 5,000+ conversion samples per run. Variant cases (heights 9..41): angle sets starting at -180, "
+              "offset by half a bin, stored in shuffled order, non-uniform, or fewer than the workers; every filter name; module pad "
+              "plus 0..20; iradon called directly (no / 2-D projection shifts, output_size None, nearest / cubic interpolation); "
+              "half-mask; all-true, all-false and one-pixel ROI masks; float32 sinograms; positions out to 0.98 of the scanned radius.")
 LEVEL_NOTE = ("Peak located at the arg-max refined by the 3x3 intensity centroid; ThreadPool scheduling is whatever the OS gives "
-              "(no schedule control); worker differential tolerance 1e-9 relative because the summation order over angles changes.")
+              "(no schedule control); worker differential tolerance 1e-9 relative because the summation order over angles changes. "
+              "The 1.5 px placement is demanded only where the statement promises it (linear interpolation, the module's shift, a pad "
+              "at least the module's, angle sets that cover the half or full turn evenly); other variants are held to linearity, "
+              "worker- and ROI-independence only. fit_sample_position_from_recon (a blob detector with an absolute threshold) and "
+              "mask_central_zingers (a median fill, not linear) are outside the statement; PBPRefine.setmask needs a full refinement "
+              "object and is not driven; integer sinograms are not fed (iradon allocates the output in the sinogram's dtype).")
 
 RULE = ("a case = (ystep, y0 offset, sinogram height, scan range, position) reconstruction or a batch of conversion samples; "
         "non-trivial = y0 offset != 0 or position off-axis; distinct = rounded parameters")
@@ -130,6 +141,68 @@ def conversions(run, seed, idx, geometry, pbp):
         V("pbp:get_voxel_idx", "numba get_voxel_idx disagrees with the in-beam law")
 
 
+def geometry_extras(run, seed, idx, geometry):
+    """the sine fit (inverse of the in-beam law) and the point-by-point step grid"""
+    r = rng(seed, "C19", "geomx", idx)
+    ystep = float(10 ** r.uniform(-1, np.log10(50)))
+    y0 = float(r.uniform(-10, 10) * ystep)
+    sx, sy = (float(v) for v in r.uniform(-100 * ystep, 100 * ystep, 2))
+    desc = dict(index=idx, kind="geometry-extras", ystep=ystep, y0=y0, sx=sx, sy=sy)
+    run.case(("geomx", round(ystep, 4), round(y0, 4), round(sx, 3)), nontrivial=True, sample=desc if idx < 1 else None)
+
+    def V(key, what):
+        run.violation(key, what, desc)
+    # ---- sine fit: exact in-beam dty values of one point give that point (and y0) back.  The model is linear in (sx, sy, y0),
+    # scipy's trf stops at relative step / cost changes of 1e-8: 1e-5 of the scale leaves three decades, any sign or
+    # half-step convention error is >= 0.5 ystep
+    kind = ["0-180", "0-360", "-180-180", "random"][int(r.integers(4))]
+    om = {"0-180": np.arange(0, 180, 2.0), "0-360": np.arange(0, 360, 5.0), "-180-180": np.arange(-180, 180, 3.0) + 0.25,
+          "random": np.sort(r.uniform(-360, 360, 40))}[kind]
+    dty = geometry.dty_values_grain_in_beam(sx, sy, y0, om)
+    scale = abs(sx) + abs(sy) + abs(y0) + ystep
+    try:
+        fx, fy, f0 = geometry.fit_sine_wave(om, dty, (sx + ystep * float(r.uniform(-3, 3)), sy + ystep * float(r.uniform(-3, 3)),
+                                                       y0 + ystep * float(r.uniform(-3, 3))))
+        gx, gy, g0 = geometry.sx_sy_y0_from_dty_omega(dty, om)
+    except Exception as e:
+        V("sinefit:exception", "sine fit raised %s: %s" % (type(e).__name__, e))
+    else:
+        run.count("sine_fits_checked", 2)
+        if not close((fx, fy, f0), (sx, sy, y0), scale, 1e-5):
+            V("sinefit:fit_sine_wave", "fit_sine_wave on exact in-beam values gives (%.6g, %.6g, %.6g), the point is (%.6g, %.6g, %.6g)"
+              % (fx, fy, f0, sx, sy, y0))
+        if not close((gx, gy, g0), (sx, sy, y0), scale, 1e-5):
+            V("sinefit:sx_sy_y0_from_dty_omega", "sx_sy_y0_from_dty_omega on exact in-beam values gives (%.6g, %.6g, %.6g), the point "
+              "is (%.6g, %.6g, %.6g)" % (gx, gy, g0, sx, sy, y0))
+    # ---- step grid for point-by-point maps
+    ny = int(r.integers(5, 60))
+    ymin = -ystep * (ny // 2) + float(r.uniform(-3, 3)) * ystep
+    ybin = ymin + np.arange(ny) * ystep
+    y0g = float(ybin.mean() + r.uniform(-10, 10) * ystep) if idx % 3 else float(ybin.mean())
+    gridstep = int(r.choice([1, 1, 2, 3, 5]))
+    pts = geometry.step_grid_from_ybincens(ybin, ystep, gridstep, y0g)
+    run.count("step_grids_checked")
+    ints = sorted(set(p_[0] for p_ in pts))
+    L = float(np.abs(ybin - y0g).max()) / ystep        # farthest scanned position from the axis, in steps
+    if sorted(pts) != sorted((a, b) for a in ints for b in ints) or len(pts) != len(ints) ** 2:
+        V("stepgrid:not-square", "step grid is not the full square product of its axis values")
+    elif len(ints) > 1 and set(np.diff(ints).tolist()) != {gridstep}:
+        V("stepgrid:spacing", "step grid spacing is not gridstep=%d" % gridstep)
+    elif ints[0] > -L + 1e-9 * (L + 1) or ints[0] <= -L - 1 - 1e-9 * (L + 1):
+        V("stepgrid:start", "step grid starts at %d, farthest scanned position is %.3f steps from the axis" % (ints[0], L))
+    elif ints[-1] + gridstep <= L - 1e-9 * (L + 1):
+        V("stepgrid:does-not-cover", "step grid ends at %d (spacing %d), scanned positions reach %.3f steps from the axis"
+          % (ints[-1], gridstep, L))
+    elif gridstep == 1 and (ints[0] != -ints[-1] or (0, 0) not in pts):
+        V("stepgrid:not-symmetric", "step grid with gridstep 1 is not symmetric about the rotation axis (%d..%d)" % (ints[0], ints[-1]))
+    else:
+        # the grid is in step units about the axis: its outermost point converts to a sample position at least as far as
+        # the farthest scanned position (gridstep 1)
+        ex, ey = geometry.step_to_sample(ints[0], ints[0], ystep)
+        if gridstep == 1 and min(abs(ex), abs(ey)) < L * ystep * (1 - 1e-9):
+            V("stepgrid:step-units", "outermost grid point converts to (%.4g, %.4g), scanned positions reach %.4g" % (ex, ey, L * ystep))
+
+
 def build_sino(geometry, sx, sy, y0, ystep, ny, ymin, angles, amp=1.0):
     sino = np.zeros((ny, len(angles)))
     dty = geometry.dty_values_grain_in_beam(sx, sy, y0, angles)
@@ -224,6 +297,187 @@ def reconstruction(run, seed, idx, geometry, roi_iradon):
             V("roi:outside-not-zero", "pixels outside the ROI mask are not zero")
 
 
+_GS = {}
+
+
+def _grain_sinogram():
+    """a GrainSinogram on an empty DataSet: only its reconstruction dispatch is used"""
+    if "gs" not in _GS:
+        import ImageD11.grain
+        import ImageD11.sinograms.dataset as dsm
+        import ImageD11.sinograms.sinogram as sgm
+        with contextlib.redirect_stdout(io.StringIO()):
+            _GS["gs"] = sgm.GrainSinogram(ImageD11.grain.grain(np.eye(3) * 3.0, translation=np.zeros(3)), dsm.DataSet())
+    return _GS["gs"]
+
+
+FILTERS = ["ramp", "shepp-logan", "cosine", "hamming", "hann", None]
+
+
+def variants(run, seed, idx, geometry, roi_iradon):
+    r = rng(seed, "C19", "var", idx)
+    ystep = float(r.choice([0.1, 1.0, 2.5, 50.0]))
+    ny = int(r.choice([9, 16, 21, 33, 40, 41]))
+    centred = bool(idx % 5 == 0)              # shift exactly 0: projection_shifts=None must be the same thing
+    ymin = -ystep * (ny / 2.0) if centred else -ystep * (ny // 2) + float(r.uniform(-3, 3)) * ystep
+    y0off = 0.0 if centred else float(np.clip(r.uniform(-10, 10), -ny / 5.0, ny / 5.0))
+    y0 = ymin + ystep * (ny / 2.0) + y0off * ystep
+    akind = ["0-180", "-180-180", "half-bin", "shuffled", "non-uniform", "few"][idx % 6]
+    if akind == "0-180":
+        angles = np.arange(0, 180, 1.0)
+    elif akind == "-180-180":
+        angles = np.arange(-180, 180, 2.0)
+    elif akind == "half-bin":
+        angles = np.arange(0, 180, 1.0) + 0.5
+    elif akind == "shuffled":
+        angles = r.permutation(np.arange(0, 360, 2.0))
+    elif akind == "non-uniform":
+        angles = np.sort(r.uniform(-90, 270, 120))
+    else:
+        angles = np.sort(r.uniform(0, 180, int(r.integers(1, 4))))
+    even_cover = akind in ("0-180", "-180-180", "half-bin", "shuffled")
+    Rmax = (ny / 2.0 - abs(y0off) - 2) * ystep
+    rad = float(r.uniform(0.5, 0.98)) * max(Rmax, 0.5 * ystep)
+    phi = float(r.uniform(0, 2 * np.pi))
+    sx, sy = rad * np.cos(phi), rad * np.sin(phi)
+    filt = FILTERS[int(r.integers(len(FILTERS)))]
+    extra_pad = int(r.choice([0, 0, 1, 2, 7, 20]))
+    desc = dict(index=idx, kind="variants", ystep=ystep, ny=ny, y0_offset_steps=y0off, angles=akind, filter=filt,
+                extra_pad=extra_pad, sx=sx, sy=sy, ymin=ymin)
+    run.case(("var", ystep, ny, round(y0off, 3), akind, filt, extra_pad, round(phi, 2)), nontrivial=True,
+             sample=desc if idx < 2 else None)
+    run.count("variant_angles_" + akind)
+    run.count("variant_filter_%s" % filt)
+
+    def V(key, what):
+        run.violation(key, what, desc)
+    sino = build_sino(geometry, sx, sy, y0, ystep, ny, ymin, angles)
+    sino2 = build_sino(geometry, -0.4 * sx + ystep, 0.6 * sy - ystep, y0, ystep, ny, ymin, angles, amp=0.7)
+    shift, pad = geometry.sino_shift_and_pad(y0, ny, ymin, ystep)
+    shift, pad = float(shift), int(pad) + extra_pad
+    if centred and shift != 0.0:
+        run.inconc("variant %d: centred case has shift %r" % (idx, shift))
+        return
+    kw = dict(pad=pad, shift=shift, filter_name=filt)
+    try:
+        rec = roi_iradon.run_iradon(sino, angles, workers=1, **kw)
+        run.count("variant_reconstructions")
+        if rec.shape != (ny + pad, ny + pad) or not np.isfinite(rec).all():
+            V("variant:shape-or-nan", "reconstruction shape %r (expected %d) or non-finite values" % (rec.shape, ny + pad))
+            return
+        scale = float(np.abs(rec).max())
+        tol = 1e-9 * scale
+        ri, rj = geometry.sample_to_recon(sx, sy, rec.shape, ystep)
+        if even_cover:
+            # ---- placement, as promised: module shift, pad >= module pad, linear interpolation, any filter
+            pi_, pj_ = peak_position(rec)
+            dist = float(np.hypot(pi_ - ri, pj_ - rj))
+            run.setmax("worst_variant_placement_error_px", dist)
+            run.count("variant_placements_checked")
+            if not dist <= 1.5:
+                V("variant:placement", "angles %s, filter %s, pad %d: peak at (%.2f, %.2f), geometry predicts (%.2f, %.2f): %.2f px apart"
+                  % (akind, filt, pad, pi_, pj_, ri, rj, dist))
+        # ---- linearity (with the half-mask too: it is a fixed weighting of the rows)
+        a, b = float(r.uniform(-2, 2)), float(r.uniform(-2, 2))
+        for hm in (False, True):
+            k2 = dict(kw, apply_halfmask=hm)
+            r1 = rec if not hm else roi_iradon.run_iradon(sino, angles, workers=1, **k2)
+            r2 = roi_iradon.run_iradon(sino2, angles, workers=1, **k2)
+            r12 = roi_iradon.run_iradon(a * sino + b * sino2, angles, workers=1, **k2)
+            run.count("variant_linearity_checks")
+            lim = 1e-9 * (abs(a) + abs(b) + 1) * max(scale, float(np.abs(r2).max()))
+            if np.abs(r12 - (a * r1 + b * r2)).max() > lim:
+                V("variant:linearity" + (":halfmask" if hm else ""), "iradon(a A + b B) differs from a iradon(A) + b iradon(B) by %.3g "
+                  "(scale %.3g; angles %s, filter %s)" % (np.abs(r12 - (a * r1 + b * r2)).max(), scale, akind, filt))
+            if hm:
+                for w in (3, 16):
+                    rw = roi_iradon.run_iradon(sino, angles, workers=w, **k2)
+                    if np.abs(rw - r1).max() > tol:
+                        V("variant:workers:halfmask", "half-masked reconstruction with %d workers differs from 1 worker" % w)
+        # ---- workers, including 'as many as there are cores' and more workers than angles
+        # (workers=0 is outside the statement's 1..16: scipy.fft refuses it before iradon's own "workers < 1" fallback is reached)
+        for w in (2, 5, 16, None):
+            rw = roi_iradon.run_iradon(sino, angles, workers=w, **kw)
+            run.count("variant_worker_runs")
+            if rw.shape != rec.shape or np.abs(rw - rec).max() > tol:
+                V("variant:workers", "reconstruction with workers=%r differs from 1 worker by %.3g (scale %.3g; %d angles)"
+                  % (w, np.abs(rw - rec).max() if rw.shape == rec.shape else -1, scale, len(angles)))
+                break
+        # ---- ROI masks: everything, nothing, one pixel, random; several worker counts
+        pix = np.zeros(rec.shape, bool)
+        pix[int(round(ri)) % rec.shape[0], int(round(rj)) % rec.shape[1]] = True
+        rnd = r.random(rec.shape) < 0.3
+        for mname, mask in (("all", np.ones(rec.shape, bool)), ("none", np.zeros(rec.shape, bool)), ("pixel", pix), ("random", rnd)):
+            for w in (1, 2, 7, 16):
+                rm = roi_iradon.run_iradon(sino, angles, workers=w, mask=mask, **kw)
+                run.count("variant_roi_runs")
+                if rm.shape != rec.shape or np.abs(rm[mask] - rec[mask]).max(initial=0) > tol:
+                    V("variant:roi:masked-pixels-differ", "ROI mask '%s', %d workers: values inside the mask differ from the full "
+                      "reconstruction by %.3g" % (mname, w, np.abs(rm[mask] - rec[mask]).max(initial=0) if rm.shape == rec.shape else -1))
+                    break
+                if np.abs(rm[~mask]).max(initial=0) != 0:
+                    V("variant:roi:outside-not-zero", "ROI mask '%s': pixels outside the mask are not zero" % mname)
+                    break
+        # ---- routes: iradon called directly is what run_iradon computes
+        direct = roi_iradon.iradon(sino, theta=angles, output_size=ny + pad, projection_shifts=np.full(sino.shape, shift),
+                                   filter_name=filt, interpolation="linear", workers=1)
+        run.count("variant_route_checks")
+        if not np.array_equal(direct, rec):
+            V("variant:route:iradon-vs-run_iradon", "iradon(..., projection_shifts=full(shift)) differs from run_iradon")
+        if centred:
+            none = roi_iradon.iradon(sino, theta=angles, output_size=ny + pad, projection_shifts=None, filter_name=filt, workers=1)
+            run.count("variant_noshift_checks")
+            if np.abs(none - rec).max() > tol:
+                V("variant:route:no-shift", "projection_shifts=None differs from a zero shift by %.3g" % np.abs(none - rec).max())
+        # other interpolations and the default output size are not reachable through run_iradon: linear / schedule laws only
+        for interp, osz in (("nearest", ny + pad), ("cubic", ny + pad), ("linear", None)):
+            k3 = dict(theta=angles, output_size=osz, projection_shifts=np.full(sino.shape, shift), filter_name=filt, interpolation=interp)
+            q1 = roi_iradon.iradon(sino, workers=1, **k3)
+            q2 = roi_iradon.iradon(sino2, workers=1, **k3)
+            q12 = roi_iradon.iradon(a * sino + b * sino2, workers=1, **k3)
+            q1w = roi_iradon.iradon(sino, workers=4, **k3)
+            run.count("variant_interpolation_checks")
+            qs = max(float(np.abs(q1).max()), float(np.abs(q2).max()), 1e-300)
+            if q1.shape != ((osz or ny),) * 2 or np.abs(q12 - (a * q1 + b * q2)).max() > 1e-9 * (abs(a) + abs(b) + 1) * qs:
+                V("variant:linearity:" + interp, "iradon(interpolation=%s, output_size=%r) is not linear in the sinogram" % (interp, osz))
+            if np.abs(q1w - q1).max() > 1e-9 * qs:
+                V("variant:workers:" + interp, "iradon(interpolation=%s, output_size=%r) depends on the worker count" % (interp, osz))
+        # ---- float32 sinogram: result stays float32 and the peak stays where it belongs
+        r32 = roi_iradon.run_iradon(sino.astype(np.float32), angles, workers=1, **kw)
+        run.count("variant_float32_runs")
+        if r32.dtype != np.float32 or r32.shape != rec.shape or not np.isfinite(r32).all():
+            V("variant:float32", "float32 sinogram gives dtype %s shape %r" % (r32.dtype, r32.shape))
+        elif even_cover:
+            pi_, pj_ = peak_position(r32.astype(float))
+            if not float(np.hypot(pi_ - ri, pj_ - rj)) <= 1.5:
+                V("variant:float32:placement", "float32 sinogram: peak %.2f px from the predicted position" % np.hypot(pi_ - ri, pj_ - rj))
+        # ---- the consumer: GrainSinogram.recon dispatches to the same function with its stored pad / shift / mask
+        if idx % 2 == 0:
+            gs = _grain_sinogram()
+            gs.ssino, gs.sinoangles = sino, angles
+            gs.recon_mask = None
+            gs.update_recon_parameters(pad=pad, shift=shift)
+            with contextlib.redirect_stdout(io.StringIO()):
+                g1 = gs.recon(method="iradon", workers=1, filter_name=filt)
+                sel = r.random(len(angles)) < 0.6
+                sel[int(r.integers(len(angles)))] = True
+                g2 = gs.recon(method="iradon", workers=1, projections=sel, filter_name=filt)
+                gs.update_recon_parameters(mask=rnd)
+                g3 = gs.recon(method="iradon", workers=3, filter_name=filt)
+            run.count("grainsinogram_recon_checks")
+            if not np.array_equal(g1, rec) or gs.recons.get("iradon") is not g3:
+                V("variant:GrainSinogram.recon", "GrainSinogram.recon differs from run_iradon with the stored pad and shift")
+            want2 = roi_iradon.run_iradon(sino[:, sel], angles[sel], workers=1, **kw)
+            if g2.shape != want2.shape or not np.array_equal(g2, want2):
+                V("variant:GrainSinogram.recon:projections", "GrainSinogram.recon(projections=subset) differs from run_iradon on that subset")
+            if g3.shape != rec.shape or np.abs(g3[rnd] - rec[rnd]).max(initial=0) > tol or np.abs(g3[~rnd]).max(initial=0) != 0:
+                V("variant:GrainSinogram.recon:mask", "GrainSinogram.recon with a stored mask differs from the full reconstruction inside it")
+    except Exception as e:
+        import traceback
+        V("variant:exception:%s" % type(e).__name__, "variant raised %s: %s [%s]" % (type(e).__name__, e,
+                                                                                   traceback.format_exc().strip().splitlines()[-3].strip()))
+
+
 def check(run, replay=None):
     from ImageD11.sinograms import geometry, roi_iradon
     from ImageD11.sinograms import point_by_point as pbp
@@ -231,16 +485,36 @@ def check(run, replay=None):
         cs = replay["case"]
         if cs["kind"] == "conversions":
             conversions(run, replay["seed"], cs["index"], geometry, pbp)
+        elif cs["kind"] == "geometry-extras":
+            geometry_extras(run, replay["seed"], cs["index"], geometry)
+        elif cs["kind"] == "variants":
+            variants(run, replay["seed"], cs["index"], geometry, roi_iradon)
         else:
             reconstruction(run, replay["seed"], cs["index"], geometry, roi_iradon)
         run.nontrivial.update(["replay", "replay2"])
         return
-    nc, nr = (120, 40) if run.tier == "quick" else (4000, 1500)
+    nc, nr, nv = (120, 40, 60) if run.tier == "quick" else (4000, 1500, 3000)
     for i in range(nc):
         conversions(run, run.seed, i, geometry, pbp)
+        geometry_extras(run, run.seed, i, geometry)
     for i in range(nr):
         reconstruction(run, run.seed, i, geometry, roi_iradon)
-    run.extra["workers_tested"] = [1, 2, 3, 4, 5, 7, 8, 13, 16]
+    for i in range(nv):
+        variants(run, run.seed, i, geometry, roi_iradon)
+    run.extra["workers_tested"] = [1, 2, 3, 4, 5, 7, 8, 13, 16, None]
     run.require_counter("conversion_samples", 5000)
     run.require_counter("reconstructions", 20)
     run.require_counter("worker_runs", 50)
+    run.require_counter("sine_fits_checked", 100)
+    run.require_counter("step_grids_checked", 100)
+    run.require_counter("variant_reconstructions", 50)
+    run.require_counter("variant_placements_checked", 30)
+    for k in ("0-180", "-180-180", "half-bin", "shuffled", "non-uniform", "few"):
+        run.require_counter("variant_angles_" + k, 5)
+    for f in FILTERS:
+        run.require_counter("variant_filter_%s" % f, 3)
+    run.require_counter("variant_roi_runs", 500)
+    run.require_counter("variant_interpolation_checks", 100)
+    run.require_counter("variant_noshift_checks", 5)
+    run.require_counter("variant_float32_runs", 50)
+    run.require_counter("grainsinogram_recon_checks", 20)
